@@ -34,32 +34,7 @@ func (s scenario) String() string {
 	return s.old + " " + s.umask + " " + s.mode + " " + s.kind + " " + s.pieces
 }
 
-// nWrites is the number of write(2) calls of the fault-free scenario (bufio rule for wf, one per piece otherwise).
-func (s scenario) nWrites() int {
-	ps := parsePieces(s.pieces)
-	if s.kind != "wf" {
-		return len(ps)
-	}
-	b := bufSize()
-	buf, n := 0, 0
-	for _, p := range ps {
-		for p > b-buf {
-			if buf == 0 {
-				n++
-				p = 0
-			} else {
-				p -= b - buf
-				buf = 0
-				n++
-			}
-		}
-		buf += p
-	}
-	if buf > 0 {
-		n++
-	}
-	return n
-}
+func (s scenario) nWrites() int { return len(chunkSizes(s.kind, parsePieces(s.pieces))) }
 
 // enumerate lists the runs of one scenario: clean trace, every single fault, every kill point of the clean run and of
 // the cleanup paths.
